@@ -463,10 +463,10 @@ def cons_sol(u):
 TR = "pygradflow.transform.Transformation."
 
 
-def mk_transformation(u, scaled=None, fmt="coo"):
+def mk_transformation(u, scaled=None, fmt="coo", mbound=M_BOUND):
     if scaled is None:
         scaled = u.path.choose("custom scaling")
-    m = u.path.choose_n(M_BOUND + 1, "number of constraints")
+    m = u.path.choose_n(mbound + 1, "number of constraints")
     user = mk_problem(u, m=m, name="user")
     n = user.fields["__n__"]
     up = UserProblem(u, user, fmt=fmt)
@@ -481,10 +481,22 @@ def mk_transformation(u, scaled=None, fmt="coo"):
     return user, up, params, sc, tr, n, m
 
 
-@unit("C04.Transformation.sol[bounded m<=3]", ["C04", "C01", "C05", "C11", "C12"], [TR + "__init__", TR + "transform_sol", TR + "restore_sol", TR + "scaled_problem", TR + "trans_problem", TR + "create_transformed_iterate", SC + "create_scaling"], config={"max_paths": 1500})
-def transformation_sol(u):
+TR_FUNCS = [TR + "__init__", TR + "transform_sol", TR + "restore_sol", TR + "scaled_problem", TR + "trans_problem", TR + "create_transformed_iterate", SC + "create_scaling"]
+
+
+@unit("C04.Transformation.sol[bounded m<=2]", ["C04", "C01", "C05", "C11", "C12"], TR_FUNCS, config={"max_paths": 1500})
+def transformation_sol_quick(u):
+    transformation_sol(u, 2)
+
+
+@unit("C04.Transformation.sol[bounded m<=3]", ["C04", "C01", "C05", "C11", "C12"], TR_FUNCS, config={"max_paths": 1500}, tier="thorough")
+def transformation_sol_thorough(u):
+    transformation_sol(u, 3)
+
+
+def transformation_sol(u, mbound):
     log = StoreLog(u)
-    user, up, params, sc, tr, n, m = mk_transformation(u)
+    user, up, params, sc, tr, n, m = mk_transformation(u, mbound=mbound)
     P = lambda e: pow2_at(u.it, e)
     tp = tr.fields["trans_problem"]
     k = tp.fields["slack_positions"].n
